@@ -262,6 +262,31 @@ func sweepCase(c *fw.Ctx, k int64, format, skip string, write func(*astisub.Subt
 	return fw.OK(key, fmt.Sprintf("%s U+%04X..U+%04X", format, block*256, block*256+255))
 }
 
+// mixEOL replaces every LF of a document rendered with LF line ends by LF, CRLF or (when no LF follows) a lone CR,
+// drawn per line: a file that went through several editors
+func mixEOL(r *fw.Rand, doc []byte) []byte {
+	out := make([]byte, 0, len(doc)+len(doc)/8)
+	for i, b := range doc {
+		if b != '\n' {
+			out = append(out, b)
+			continue
+		}
+		switch r.Intn(3) {
+		case 0:
+			out = append(out, '\n')
+		case 1:
+			out = append(out, '\r', '\n')
+		default:
+			if i+1 < len(doc) && doc[i+1] == '\n' {
+				out = append(out, '\r', '\n')
+			} else {
+				out = append(out, '\r')
+			}
+		}
+	}
+	return out
+}
+
 // listSize draws a list length: mostly small (0..small), now and then long, now and then right at the sizes where a
 // size-dependent code path would switch (insertion sort -> quick sort at 12, chunking or searching at 64/256/1024)
 func listSize(r *fw.Rand, small int) int {
